@@ -1,0 +1,133 @@
+//! Observation hooks for external runtime monitors
+//!
+//! Only compiled with `--cfg bigdecimal_verif`; without the flag the
+//! `verif_probe!` / `verif_loop_*!` macros expand to nothing and this
+//! module does not exist.
+//!
+//! * path probes: each probe site sets one bit in a thread-local
+//!   128-bit "path word" and bumps a per-probe hit counter, so a monitor
+//!   can tell which algorithm branches served a call;
+//! * loop guards: loops without a syntactic bound report their iteration
+//!   count; exceeding the cap given at the site panics with
+//!   `verif-loop-cap:<NAME>` (bounded-progress form of "terminates").
+//!
+#![allow(missing_docs)]
+
+use std::cell::{Cell, RefCell};
+
+macro_rules! define_ids {
+    ($enum_name:ident, $names:ident; $($name:ident),* $(,)?) => {
+        #[allow(non_camel_case_types)]
+        #[derive(Clone, Copy, Debug, PartialEq, Eq)]
+        #[repr(u32)]
+        pub enum $enum_name { $($name),* }
+        pub const $names: &[&str] = &[$(stringify!($name)),*];
+    };
+}
+
+define_ids!(Probe, PROBE_NAMES;
+    // arithmetic/mod.rs
+    TenPow_Lt20, TenPow_Lt590, TenPow_Recursive,
+    Digits_Zero, Digits_EstimateExact, Digits_Corrected,
+    // lib.rs
+    RoundingTerm,
+    WithScale_Zero, WithScale_Up, WithScale_Down, WithScale_Equal,
+    Wsr_Zero, Wsr_Equal, Wsr_Extend, Wsr_RoundAtLead, Wsr_RoundLeftOfLead, Wsr_RoundInside,
+    Wsr_Carry, Wsr_CarryNewDigit,
+    SetScale_Zero, SetScale_UpU64, SetScale_UpBig, SetScale_DownU64, SetScale_DownBig,
+    WithPrec_Round, WithPrec_TermApplied, WithPrec_LeadingZeroRemainder, WithPrec_Pad, WithPrec_Equal,
+    Tows_Equal, Tows_UpU64, Tows_UpBig, Tows_DownU64, Tows_DownBig,
+    Div_ZeroNum, Div_Normalize, Div_EarlyExact, Div_ExactInLoop, Div_Inexact,
+    Exp_Zero, Exp_Negative, Exp_Positive,
+    Inv_GuessF64, Inv_GuessFallback,
+    Norm_Zero, Norm_Trim,
+    Hash_Zero, Hash_Trim, Hash_AppendZeros, Hash_Plain,
+    // sqrt / cbrt
+    Sqrt_ParityAdjust, Sqrt_LongInput, Sqrt_Sticky, Sqrt_Exact,
+    Cbrt_RemPos, Cbrt_RemNeg, Cbrt_RemZero, Cbrt_LeadingZeroRemainder, Cbrt_Inexact, Cbrt_Exact,
+    // addition
+    Add_RhsZero, Add_LhsZero, Add_Aligned, Add_Unaligned,
+    AddRef_RhsZero, AddRef_LhsZero, AddRef_Aligned, AddRef_Unaligned,
+    AddAssign_Less, AddAssign_Greater, AddAssign_Equal,
+    // equality
+    Eq_BothZero, Eq_SignDiffer, Eq_SameScale, Eq_ScaleOverflow, Eq_BitPrefilter,
+    Eq_WordLoop, Eq_WordLoopOverflow, Eq_DigitWise,
+    // ordering
+    Cmp_SignDecided, Cmp_Zero, Cmp_ScaleOverflow, Cmp_SameScale, Cmp_BitPrefilter,
+    Cmp_U64, Cmp_U128, Cmp_DigitCount, Cmp_DigitWise,
+    // formatting
+    Fmt_Exponential, Fmt_Dotless, Fmt_FullScale,
+    Fmt_IntPad, Fmt_IntPadImplicitSkip, Fmt_IntPadLimit,
+    Fmt_WithInteger, Fmt_NoInteger_RoundBeforeDigits, Fmt_NoInteger_Sig,
+    Fmt_RoundNoCarry, Fmt_RoundCarry, Fmt_RoundAllNines,
+    Fmt_Plain, Fmt_Sci, Fmt_Eng,
+    // parsing
+    Parse_NoDot, Parse_DotLast, Parse_DotInside, Parse_Exponent,
+    // conversions
+    ToF64_Zero, ToF64_Scale0, ToF64_Trim, ToF64_Powi, ToF64_String, ToF64_Infinity,
+    ToInt_Fast, ToInt_Rescale,
+    FromF_Zero, FromF_Subnormal, FromF_PowNeg, FromF_PowZero, FromF_PowPos,
+);
+
+define_ids!(Loop, LOOP_NAMES;
+    RoundingTerm,
+    DigitsCorrection,
+    DivNormalize,
+    DivDigits,
+    InverseNewton,
+    ExpSeries,
+);
+
+pub const PROBE_COUNT: usize = PROBE_NAMES.len();
+pub const LOOP_COUNT: usize = LOOP_NAMES.len();
+
+thread_local! {
+    static PATH: Cell<u128> = Cell::new(0);
+    static HITS: RefCell<[u64; 128]> = RefCell::new([0; 128]);
+    static LOOP_MAX: RefCell<[u64; 16]> = RefCell::new([0; 16]);
+}
+
+/// Record that a probe site was executed on this thread
+#[inline]
+pub fn hit(probe: Probe) {
+    let id = probe as u32;
+    debug_assert!(id < 128);
+    PATH.with(|p| p.set(p.get() | (1u128 << id)));
+    HITS.with(|h| h.borrow_mut()[id as usize] += 1);
+}
+
+/// Return the path word accumulated since the last call, and clear it
+#[inline]
+pub fn take_path() -> u128 {
+    PATH.with(|p| p.replace(0))
+}
+
+/// Was the probe hit in the given path word
+pub fn path_has(path: u128, probe: Probe) -> bool {
+    path & (1u128 << (probe as u32)) != 0
+}
+
+/// Per-probe hit counters of this thread (indexed like PROBE_NAMES)
+pub fn hits_snapshot() -> Vec<u64> {
+    HITS.with(|h| h.borrow()[..PROBE_COUNT].to_vec())
+}
+
+/// Maximum iteration count seen per guarded loop on this thread (indexed like LOOP_NAMES)
+pub fn loop_max_snapshot() -> Vec<u64> {
+    LOOP_MAX.with(|m| m.borrow()[..LOOP_COUNT].to_vec())
+}
+
+/// Report that guarded loop `which` is in its `count`-th iteration
+#[inline]
+pub fn loop_tick(which: Loop, count: u64, cap: u64) {
+    let id = which as usize;
+    LOOP_MAX.with(|m| {
+        let mut m = m.borrow_mut();
+        if m[id] < count {
+            m[id] = count;
+        }
+    });
+    if count > cap {
+        panic!("verif-loop-cap:{} iterations={} cap={}", LOOP_NAMES[id], count, cap);
+    }
+}
